@@ -201,7 +201,7 @@ def c17(rep, tier, seed):
     suite_names.gen(rep, tier, ["sanitize", "accessors"], cl)
     suite_names.trace(rep, tier, seed, cl)
     suite_heap.mc(rep, tier, ["names"])
-    suite_heap.devs(rep, ["CmapStale"])
+    suite_heap.devs(rep, ["CmapStale", "DirTames"])
     suite_heap.gen(rep, tier, "names", cl)
 
 
@@ -266,7 +266,7 @@ def c18(rep, tier, seed):
     ]
     cl = ("names", "name@target", "name@other", "agg_names", "agg_names_distinct", "keys_first")
     q = tier == "quick"
-    suite_names.gen(rep, tier, ["agg"], cl)
+    suite_names.gen(rep, tier, ["agg", "agg2"], cl)
     suite_vec.gen(rep, tier, ["elem", "mask"] + ([] if q else ["slice"]), cl)
     suite_table.gen(rep, tier, ["arith", "select"], cl)
     suite_table.enumerated(rep, "struct", cl)
@@ -332,18 +332,68 @@ CHECKS = {
 }
 
 
+GEN_DRIVERS = {
+    "types.gen": ("drv_types.py", lambda cp, op: ["replay", cp, op]),
+    "join.gen": ("drv_rel.py", lambda cp, op: ["replay_join", cp, op]),
+    "sort.gen": ("drv_rel.py", lambda cp, op: ["replay_sort", cp, op]),
+    "group.gen": ("drv_rel.py", lambda cp, op: ["replay_group", cp, op]),
+    "csv.gen": ("drv_csv.py", lambda cp, op: ["replay", cp, op]),
+    "repr.layout": ("drv_repr.py", lambda cp, op: ["replay", cp, op]),
+}
+
+
 def replay(prop, path, rep):
-    """Re-execute one recorded violation against the current tree."""
+    """Re-execute one recorded violation against the current tree; exit 1 if it still fails.
+
+    Cases generated by TLC are self-contained (the case, its index-derived variant, the hash seed):
+    the single case is handed to the suite's driver again.  Violations found on recorded executions
+    (direction "trace") or by enumerated sweeps are reproduced by re-running the check with the
+    recorded tier and seed and looking for the same clause in the same suite."""
+    import os
     v = json.load(open(path))
-    suite = v.get("suite", "")
-    mod = suite.split(".")[0]
-    import importlib
-    m = importlib.import_module("suite_" + mod)
-    if not hasattr(m, "replay_one"):
-        raise engine.MachineryError(f"suite {mod} has no replay support")
-    still = m.replay_one(v, rep)
+    suite, clause, case = v.get("suite", ""), v.get("clause"), v.get("case")
+    sc = engine.scratch()
+    cp, op = os.path.join(sc, "replay_case.json"), os.path.join(sc, "replay_out.json")
+    spec = None
+    if v.get("direction") == "gen":
+        if suite in GEN_DRIVERS:
+            spec = GEN_DRIVERS[suite]
+            inner = case.get("case", case)
+        elif suite.startswith("vec."):
+            spec = ("drv_vec.py", lambda c, o, s=suite[4:]: ["replay", s, c, o])
+            inner = case.get("case", case)
+        elif suite.startswith("table.") and suite[6:] in ("select", "arith", "tassign"):
+            spec = ("drv_table.py", lambda c, o, s=suite[6:]: ["replay", s, c, o])
+            inner = case.get("case", case)
+        elif suite.startswith("names.") and suite != "names.trace":
+            spec = ("drv_names.py", lambda c, o: ["replay", c, o])
+            inner = case.get("case", case)
+        elif suite.startswith("heap.gen."):
+            inner = {"path": case["path"], "post": case["post"], "variant": case.get("variant", 0)}
+            with open(cp, "w") as f:
+                f.write(json.dumps(inner) + "\n")
+            engine.run_driver("drv_heap.py", ["replay", cp, op, "1"])
+            out = json.load(open(op))
+            still = [f for f in out["failures"] if f["clause"] == clause]
+            return _replay_verdict(prop, path, still)
+    if spec is not None:
+        json.dump([inner], open(cp, "w"))
+        engine.run_driver(spec[0], spec[1](cp, op), hashseed=case.get("hashseed", 0) if isinstance(case, dict) else 0)
+        out = json.load(open(op))
+        still = [f for f in out["failures"] if f["clause"] == clause]
+        return _replay_verdict(prop, path, still)
+    # fall back: re-run the whole decision procedure with the recorded tier and seed
+    rep.tier, rep.seed = v.get("tier", rep.tier), v.get("seed", rep.seed)
+    CHECKS[prop](rep, rep.tier, rep.seed)
+    still = [f for f in rep.failures if f["clause"] == clause and f["suite"] == suite]
+    return _replay_verdict(prop, path, still)
+
+
+def _replay_verdict(prop, path, still):
     if still:
+        f = still[0]
         print(f"VIOLATION property={prop} replay={path}")
+        print(f"  still fails: clause={f['clause']} observed={json.dumps(f['observed'], default=str)[:300]}")
         return 1
-    print(f"replay of {path}: no longer fails")
+    print(f"replay of {path}: no longer fails on the current tree")
     return 0
